@@ -26,6 +26,9 @@ var kindNames = map[int]string{kActive: "active", kRead: "read", kWrite: "write"
 type act struct {
 	Fwd  bool // forward the event to the next handler
 	Nest int  // before forwarding: 0 nothing, 1 ctx.Write(fresh payload), 2 ctx.Trigger(fresh token)
+	// Panic: instead of returning, panic with a fresh exception token (ignored at exception/inactive visits). Only used
+	// under entry points whose panics the library promises to turn into an exception event (Channel.Write/Trigger, ctx.Write/Trigger).
+	Panic bool
 }
 
 // seen is one recorded probe invocation.
@@ -41,6 +44,8 @@ type run struct {
 	plan  []act
 	nestW []*wpayload // per visit ordinal, for Nest==1
 	nestE []*token    // per visit ordinal, for Nest==2
+	panE  []*excTok   // per visit ordinal, for Panic
+	stopB *base       // exception visits of this instance never forward (nil: plan decides)
 	obs   []seen
 }
 
@@ -71,6 +76,12 @@ func (b *base) on(kind int, ctx netty.HandlerContext, payload interface{}) bool 
 		ctx.Write(r.nestW[k].msg)
 	case 2:
 		ctx.Trigger(r.nestE[k])
+	}
+	if a.Panic && kind != kExc && kind != kInactive {
+		panic(r.panE[k])
+	}
+	if kind == kExc && r.stopB == b {
+		return false
 	}
 	return a.Fwd
 }
@@ -143,6 +154,12 @@ type token struct{ n int }
 type excTok struct{ n int }
 
 func (e *excTok) Error() string { return fmt.Sprintf("c03-exception-%d", e.n) }
+
+// timeoutTok is an exception that is a net.Error reporting a timeout.
+type timeoutTok struct{ excTok }
+
+func (e *timeoutTok) Timeout() bool   { return true }
+func (e *timeoutTok) Temporary() bool { return true }
 
 // wpayload is an outbound message of one of the types the head accepts, with
 // the bytes it must produce on the wire.
